@@ -1044,7 +1044,7 @@ int main(int argc, char **argv)
         if (CFGS[0].nl != NLETTERS || CFGS[0].L[L_IN].kind != K_IN || CFGS[0].L[L_TX].kind != K_TX || CFGS[0].L[L_UNREG].kind != K_UNREG) {
                 fprintf(stderr, "C11: registry alphabet numbering changed\n"); exit(2);
         }
-        mc_set_budget(120, 1500);
+        mc_set_budget(300, 1500);
         mc_meta("level", "model_checking");
         mc_meta("technique", "explicit-state BFS over call histories on the real vbi_decoder event registry, list model oracle driven by the real callbacks (real decode calls are audited stage by stage: one call may raise several events, a page may span several calls), AddressSanitizer for freed records");
         mc_meta("rule", "a case is a history over the alphabet of its phase family, replayed on a fresh decoder, audited call by call, then probed. "
